@@ -1091,14 +1091,15 @@ impl ASN1Value {
                 };
                 Ok(())
             }
-            (ASN1Type::CharacterString(t), ASN1Value::String(s)) => {
+            // a cstring made of tstring characters only (`"12:30"`) is lexed as a time value
+            (ASN1Type::CharacterString(t), ASN1Value::String(s) | ASN1Value::Time(s)) => {
                 *self = ASN1Value::LinkedCharStringValue(t.ty, s.clone());
                 Ok(())
             }
             (ASN1Type::CharacterString(t), ASN1Value::LinkedNestedValue { value, .. })
-                if matches![**value, ASN1Value::String(_)] =>
+                if matches![**value, ASN1Value::String(_) | ASN1Value::Time(_)] =>
             {
-                if let ASN1Value::String(s) = &**value {
+                if let ASN1Value::String(s) | ASN1Value::Time(s) = &**value {
                     **value = ASN1Value::LinkedCharStringValue(t.ty, s.clone());
                 }
                 Ok(())
